@@ -11,6 +11,7 @@ propagated.
 from __future__ import annotations
 
 import ast
+import re
 
 from sa.cfg import node_exprs, walk_expr
 from sa.core import AnalysisError, call_name, dotted, kw, const, text, walk_local
@@ -282,7 +283,10 @@ class Effects:
         for a in call.args[:1]:
             for x in ast.walk(a):
                 if isinstance(x, ast.Constant) and isinstance(x.value, str):
-                    return repr(x.value[:48])
+                    # the constant text up to the first placeholder: the same for '%s' % x,
+                    # '{}'.format(x) and an f-string
+                    head = re.split(r'%[srdif(]|\{[\w!:.]*\}', x.value)[0].rstrip(' :')
+                    return repr(head[:48])
         return '...'
 
     @staticmethod
